@@ -124,4 +124,17 @@ CLAIMED = {
                 "the running code as a ~1e-13 difference and deliberately not armed. Exception paths (RuntimeError from the backend) are not bracketed.",
         "technique": "CFG post-dominance / dominance pairing rules (excursion -> restore, save -> load, fix -> release) + cache-invalidation must-call rules",
     },
+    "C13": {
+        "category": "proof",
+        "text": "The quadrature rules of HistParametricModel are read off the canonical form of their return expressions as rational weights (left edge, centre, "
+                "right edge) per unit bin width, and the exactness identities on [0,1] are discharged with exact rational arithmetic: sum w = 1, sum w x = 1/2 for "
+                "all three rules, additionally sum w x^2 = 1/3 and sum w x^3 = 1/4 for Simpson - which is precisely 'exact for polynomials of degree <= 1 / 3' "
+                "for every bin and every density by linearity and affine change of variable. Bin centres and widths are (a+b)/2 and b-a over the same edge "
+                "slices; the antiderivative path is F(b) - F(a) at the current parameters; numerical integration runs over the same (a, b) pairs; the string "
+                "-> rule selection table; recalculation stores the rule's result in the bin slice and clears the stale flag; HistFit.model scales by the number "
+                "of entries iff the model is a density; the model is rebuilt from the current container on every path.",
+        "note": "Trusted base: extraction/normalisation (kv.termform) and numpy slicing semantics of [:-1] / [1:]. Accuracy of scipy.integrate.quad and "
+                "convergence orders for non-polynomial densities are not decided.",
+        "technique": "canonical-form weight extraction + exact rational moment identities; structural selection/rebuild rules",
+    },
 }
